@@ -263,6 +263,8 @@ def gen_cache_trace(seed, faults, kinds=("wb", "wt")):
             # memory system keeps grow past a few hundred / a thousand entries
             ctx.nblocks = rm.choice([40, 130, 300])
             ctx.sets_used = min(1 << cfg["ib"], 4)
+        else:
+            ctx.sets_used = 1  # narrow marathon: one set takes every access
     p_write = r.choice([0.2, 0.5, 0.5, 0.8])
     p_fault = r.choice([0.05, 0.1, 0.2]) if faults else 0.0
     p_unc = r.choice([0.0, 0.1, 0.3])
@@ -278,7 +280,7 @@ def gen_cache_trace(seed, faults, kinds=("wb", "wt")):
             ops += _motif(ctx)
         elif k < 0.15:
             ops.append(["INSPECT"])
-        elif k < 0.165:
+        elif k < (0.165 if not marathon else 0.151):
             ops.append(["RESET"])
             if r.random() < 0.5:
                 for _ in range(r.randint(1, 4)):
